@@ -186,17 +186,69 @@ Proof.
   unfold Qle. cbn. lia.
 Qed.
 
-(* soundness of the pairwise liability check used in C09_Check.pheno_ok *)
+(* soundness of the liability check used in C09_Check.pheno_ok: no control's liability
+   exceeds a case's by more than the two slacks *)
+Lemma min_case_le : forall rows m, min_case rows = Some m ->
+  forall li si, In (true, (li, si)) rows -> (m <= li + si)%Q.
+Proof.
+  induction rows as [|[c [l s]] r IH]; intros m Hm li si Hin; [destruct Hin|].
+  cbn [min_case] in Hm. destruct Hin as [Hin|Hin].
+  - inversion Hin; subst c l s. destruct (min_case r) as [x|].
+    + destruct (Qle_bool x (li + si)) eqn:E; inversion Hm; subst m.
+      * apply Qle_bool_iff. exact E.
+      * apply Qle_refl.
+    + inversion Hm; subst m. apply Qle_refl.
+  - destruct c.
+    + destruct (min_case r) as [x|] eqn:Er.
+      * specialize (IH x eq_refl li si Hin).
+        destruct (Qle_bool x (l + s)) eqn:E; inversion Hm; subst m; [exact IH|].
+        apply Qle_trans with x; [|exact IH].
+        apply Qlt_le_weak. apply Qnot_le_lt. intro H. apply Qle_bool_iff in H. congruence.
+      * exfalso. clear - Er Hin. induction r as [|[c2 [l2 s2]] r2 IH2]; [destruct Hin|].
+        cbn [min_case] in Er. destruct Hin as [Hin|Hin].
+        -- inversion Hin; subst c2. destruct (min_case r2); discriminate.
+        -- destruct c2; [destruct (min_case r2); discriminate|]. apply IH2; assumption.
+    + apply (IH m Hm li si Hin).
+Qed.
+
 Lemma liab_check_sound : forall rows : list (bool * (Q * Q)),
-  forallb (fun '(ci, (li, si)) =>
-     negb ci || forallb (fun '(cj, (lj, sj)) => cj || Qle_bool lj (li + si + sj)) rows) rows = true ->
+  liab_sep rows = true ->
   forall ci li si cj lj sj, In (ci, (li, si)) rows -> In (cj, (lj, sj)) rows ->
   ci = true -> cj = false -> (lj <= li + si + sj)%Q.
 Proof.
-  intros rows H ci li si cj lj sj Hi Hj Hci Hcj.
-  rewrite forallb_forall in H. specialize (H _ Hi). cbn in H. subst ci. cbn in H.
-  rewrite forallb_forall in H. specialize (H _ Hj). cbn in H. subst cj. cbn in H.
-  apply Qle_bool_iff. exact H.
+  intros rows H ci li si cj lj sj Hi Hj Hci Hcj. subst ci cj.
+  unfold liab_sep in H. destruct (min_case rows) as [m|] eqn:Em.
+  - pose proof (min_case_le rows m Em li si Hi) as H1.
+    rewrite forallb_forall in H. specialize (H _ Hj). cbn in H. apply Qle_bool_iff in H.
+    setoid_replace lj with ((lj - sj) + sj)%Q by ring.
+    apply Qplus_le_compat; [|apply Qle_refl]. apply Qle_trans with m; assumption.
+  - exfalso. clear - Em Hi. induction rows as [|[c [l s]] r IH]; [destruct Hi|].
+    cbn [min_case] in Em. destruct Hi as [Hi|Hi].
+    + inversion Hi; subst c. destruct (min_case r); discriminate.
+    + destruct c; [destruct (min_case r); discriminate|]. apply IH; assumption.
+Qed.
+
+(* ... and it accepts exactly what the pairwise comparison accepts *)
+Lemma liab_sep_complete : forall rows : list (bool * (Q * Q)),
+  (forall li si lj sj, In (true, (li, si)) rows -> In (false, (lj, sj)) rows -> (lj <= li + si + sj)%Q) ->
+  liab_sep rows = true.
+Proof.
+  intros rows H. unfold liab_sep. destruct (min_case rows) as [m|] eqn:Em; [|reflexivity].
+  assert (Hw : exists li si, In (true, (li, si)) rows /\ (m == li + si)%Q).
+  { clear H. revert m Em. induction rows as [|[c [l s]] r IH]; intros m Em; [discriminate|].
+    cbn [min_case] in Em. destruct c.
+    - destruct (min_case r) as [x|] eqn:Er.
+      + destruct (Qle_bool x (l + s)) eqn:E; inversion Em; subst m.
+        * destruct (IH x eq_refl) as [li [si [Hin Heq]]]. exists li, si. split; [right; exact Hin|exact Heq].
+        * exists l, s. split; [left; reflexivity|reflexivity].
+      + inversion Em; subst m. exists l, s. split; [left; reflexivity|reflexivity].
+    - destruct (IH m Em) as [li [si [Hin Heq]]]. exists li, si. split; [right; exact Hin|exact Heq]. }
+  destruct Hw as [li [si [Hin Heq]]].
+  apply forallb_forall. intros [cj [lj sj]] Hj. destruct cj; [reflexivity|]. cbn [orb].
+  apply Qle_bool_iff. rewrite Heq. specialize (H li si lj sj Hin Hj).
+  setoid_replace (lj - sj)%Q with (lj + - sj)%Q by ring.
+  setoid_replace (li + si)%Q with ((li + si + sj) + - sj)%Q by ring.
+  apply Qplus_le_compat; [exact H|apply Qle_refl].
 Qed.
 
 (* ---------- replicate columns ---------------------------------------------- *)
